@@ -21,12 +21,8 @@ def run(ctx):
              'job-retry-time=nextretry(birth,c)', pd.unit + ':pass_dochan', 'jo[..].retry must be nextretry(birth, c)')
     gi = pd.calls('getinfo')
     r1.check(bool(gi) and bool(ra) and pd.dominates(gi[0], ra[0]) and 'birth' in gi[0].args[1].src(), 'birth-comes-from-the-info-file', pd.unit + ':pass_dochan', 'birth must be filled by getinfo() before nextretry')
-    jc = prog.fn('job_close', 'qmail-send.c')
-    da = [x for x in jc.all_x() if x.k == 'asg' and (x.args[0].path() or '').endswith('.dt')]
-    r1.check(any(x.args[1].path() and x.args[1].path().endswith('.retry') for x in da), 'job_close-reinserts-with-the-retry-time', jc.unit + ':job_close', 'pe.dt = jo[j].retry')
-    ins = [c for c in jc.calls('prioq_insert') if 'pqchan' in c.args[0].src()]
-    r1.check(bool(ins) and 'jo[j].channel' in ins[0].args[0].src(), 'job_close-reinserts-into-its-own-channel-queue', jc.unit + ':job_close', '')
-    r1.expect_min(6)
+    attach(r1, qsend.analyse_job_reinsert(db, rep), prefixes=['jc:'])
+    r1.expect_min(5)
 
     r2 = rep.rule('C15.2-back-off-shape', 'R-CONST', 'nextretry: n = 0 if birth > recent else squareroot(recent - birth); n += chanskip[c]; return birth + n*n; chanskip = {10, 20}, all >= 1')
     nr = prog.fn('nextretry', 'qmail-send.c')
